@@ -46,6 +46,10 @@ fn main() -> Result<(), Box<dyn Error>> {
         }
     }
 
+    if dom.document_element().is_err() {
+        return Err("Document has no root element.".into());
+    }
+
     let mut buf = BufWriter::new(io::stdout().lock());
     if arg.no_indent {
         buf.write_fmt(format_args!("{}\n", dom))?;
